@@ -7,6 +7,12 @@ def tasks(tier, seed):
     ts = SC.session_tasks(tier, ['CHECK_C05'], 'c05', ('C05:',))
     ts += SC.session_tasks(tier, ['CHECK_C05'], 'c05', ('C05:',), slow=True)     # slow producer: workers wait mid-container
     ts += SC.big_session_tasks(tier, 'c05', ('C05:',))
+    # header fields assigned between open() and close(); a restore point object written by the application itself
+    for name, d in (('hdr_after_open', '#define HEADER_AFTER_OPEN 1\n'), ('app_restore_point', '#define APP_RESTORE_POINT 1\n')):
+        for t in SC.session_tasks(tier, ['CHECK_C05'], 'c05_' + name, ('C05:',))[:1 if tier == 'quick' else 3]:
+            t.text = d + t.text
+            t.desc = ('header fields assigned after open(): ' if 'HEADER' in d else 'plus one RestorePointContainer written by the application: ') + t.desc
+            ts.append(t)
     meta = dict(
         level='model_checking',
         explanation='After close() of a symbolically executed write session the header bytes on the in-memory disk are compared '
